@@ -5,6 +5,7 @@ from __future__ import annotations
 import checks_eval as ce
 import checks_text as ct
 import checks_api as ca
+import checks_cli as cc
 
 T = "JPV.Tables."
 
@@ -90,5 +91,12 @@ PROPS = {
         theorems=["JPV.Props.C16", "JPV.Props.C16_abandon"],
         tables=[T + "writes_benign", T + "random_sites_model"],
         explore=ca.explore_c16,
+    ),
+    "C20": dict(
+        modules=["JPV.Props.C20"],
+        theorems=["JPV.Props.C20_compile_errors", "JPV.Props.C20_evaluate_errors", "JPV.Props.C20_hierarchy_covered",
+                  "JPV.Props.C20_wiring", "JPV.Props.C20_ok"],
+        tables=[T + "exceptions_model"],
+        explore=cc.explore_c20,
     ),
 }
